@@ -136,6 +136,11 @@ def plan(ctx):
 def run(ctx):
     items = plan(ctx)
     tot, outcomes, verdicts = PC.run_items(ctx, items, _work, sample_every=max(1, len(items) // 5))
+    # conformance of the environment model: the same oracle on free-running executions of the shipped backends
+    from .. import realpar
+    real = realpar.run_real(ctx, realpar.programs_c01(ctx.tier), "C01", nchunks=5)
+    ctx.sample({"real_backend_part": "threading / loky / multiprocessing x n_jobs 2,3 x batch_size 1,2,auto x pre_dispatch all,n_jobs,2*n_jobs,1 x "
+                                     "return_as x N x flat/decreasing task durations; one OS-chosen schedule each", **real})
     ctx.rule = ("one Parallel call per configuration (n_jobs x batch_size x pre_dispatch x return_as x N x input kind x "
                 "FIFO/free completion order [x inline completion]); for each, every schedule of caller vs completion "
                 "callback thread with <= PB pre-emptions at source-line granularity, <= OB non-FIFO completion picks, "
@@ -148,15 +153,22 @@ def run(ctx):
         "virtual backend over-approximates the callback behaviour of the threading/multiprocessing/loky backends (single callback thread, callback after completion, inline callback for an already finished future)",
         "pre-emption granularity is one source line of joblib.parallel; Parallel._lock is replaced by a cooperative re-entrant lock, joblib.parallel.time by a virtual clock",
         "state fingerprints are recorded on every 8th execution, for counting only (no pruning)",
+        "real-backend part: configuration space exhaustive, schedules chosen by the OS (not enumerated); it binds the environment model to the shipped backends and is not counted in states/transitions",
     ]
     return {"states": tot["states"], "transitions": tot["transitions"],
             "traces_validated_against_impl": tot["execs"], "evaluations": tot["execs"],
             "distinct_nontrivial": len(outcomes), "configurations": tot["configs"],
             "scheduling_points_executed": tot["points"], "max_decision_points_in_one_execution": tot["max_decisions"],
-            "verdicts": dict(verdicts)}
+            "verdicts": dict(verdicts), **real}
 
 
 def replay(data):
+    if data.get("part") == "real":
+        from .. import realpar
+        rc = realpar.replay_real(data)
+        if rc:
+            print("VIOLATION property=C01 replay=<this file>")
+        return rc
     from .. import parharness as H
     cfg = data["cfg"]
     cfg["program"] = [tuple(s) for s in cfg["program"]]
